@@ -49,7 +49,10 @@ struct ACallbackList {
 	static const char * name() { return "CallbackList"; }
 	static const bool isQueue = false, hasFilter = false;
 	static void add(T & o, int id) { o.append(Fn(id)); }
-	static bool removeAt(T & o, int pos) { typename T::Handle h; int i = 0; o.forEach([&](const typename T::Handle & hh, const typename T::Callback &) { if(i++ == pos) h = hh; }); return o.remove(h); }
+	static typename T::Handle handleAt(T & o, int pos, bool & found) { typename T::Handle h; int i = 0; found = false; o.forEach([&](const typename T::Handle & hh, const typename T::Callback &) { if(i++ == pos) { h = hh; found = true; } }); return h; }
+	static bool removeHandle(T & o, const typename T::Handle & h) { return o.remove(h); }
+	static bool handleAlive(const typename T::Handle & h) { return !h.expired(); }
+	static bool removeAt(T & o, int pos) { bool found; typename T::Handle h = handleAt(o, pos, found); return removeHandle(o, h); }
 	static void trigger(T & o, int v) { o(v); }
 #ifndef VERIF_NO_PRIVATE
 	static void preset(T & o, unsigned v) { o.currentCounter.store(v); }
@@ -64,7 +67,10 @@ struct ADispatcher {
 	static const char * name() { return "EventDispatcher"; }
 	static const bool isQueue = false, hasFilter = false;
 	static void add(T & o, int id) { o.appendListener(5, Fn(id)); }
-	static bool removeAt(T & o, int pos) { typename T::Handle h; int i = 0; o.forEach(5, [&](const typename T::Handle & hh, const typename T::Callback &) { if(i++ == pos) h = hh; }); return o.removeListener(5, h); }
+	static typename T::Handle handleAt(T & o, int pos, bool & found) { typename T::Handle h; int i = 0; found = false; o.forEach(5, [&](const typename T::Handle & hh, const typename T::Callback &) { if(i++ == pos) { h = hh; found = true; } }); return h; }
+	static bool removeHandle(T & o, const typename T::Handle & h) { return o.removeListener(5, h); }
+	static bool handleAlive(const typename T::Handle & h) { return !h.expired(); }
+	static bool removeAt(T & o, int pos) { bool found; typename T::Handle h = handleAt(o, pos, found); return removeHandle(o, h); }
 	static void trigger(T & o, int v) { o.dispatch(5, v); }
 	static void preset(T &, unsigned) {}
 	static bool hasAny(T & o) { return o.hasAnyListener(5); }
@@ -75,7 +81,10 @@ struct AQueue {
 	static const char * name() { return std::is_same<Pol, P<Th> >::value ? "EventQueue" : "EventQueue+MixinFilter"; }
 	static const bool isQueue = true, hasFilter = !std::is_same<Pol, P<Th> >::value;
 	static void add(T & o, int id) { o.appendListener(5, Fn(id)); }
-	static bool removeAt(T & o, int pos) { typename T::Handle h; int i = 0; o.forEach(5, [&](const typename T::Handle & hh, const typename T::Callback &) { if(i++ == pos) h = hh; }); return o.removeListener(5, h); }
+	static typename T::Handle handleAt(T & o, int pos, bool & found) { typename T::Handle h; int i = 0; found = false; o.forEach(5, [&](const typename T::Handle & hh, const typename T::Callback &) { if(i++ == pos) { h = hh; found = true; } }); return h; }
+	static bool removeHandle(T & o, const typename T::Handle & h) { return o.removeListener(5, h); }
+	static bool handleAlive(const typename T::Handle & h) { return !h.expired(); }
+	static bool removeAt(T & o, int pos) { bool found; typename T::Handle h = handleAt(o, pos, found); return removeHandle(o, h); }
 	static void trigger(T & o, int v) { o.dispatch(5, v); }
 	static void preset(T &, unsigned) {}
 	static bool hasAny(T & o) { return o.hasAnyListener(5); }
@@ -92,7 +101,10 @@ struct ADispatcherF {
 	static const char * name() { return "EventDispatcher+MixinFilter"; }
 	static const bool isQueue = false, hasFilter = true;
 	static void add(T & o, int id) { o.appendListener(5, Fn(id)); }
-	static bool removeAt(T & o, int pos) { typename T::Handle h; int i = 0; o.forEach(5, [&](const typename T::Handle & hh, const typename T::Callback &) { if(i++ == pos) h = hh; }); return o.removeListener(5, h); }
+	static typename T::Handle handleAt(T & o, int pos, bool & found) { typename T::Handle h; int i = 0; found = false; o.forEach(5, [&](const typename T::Handle & hh, const typename T::Callback &) { if(i++ == pos) { h = hh; found = true; } }); return h; }
+	static bool removeHandle(T & o, const typename T::Handle & h) { return o.removeListener(5, h); }
+	static bool handleAlive(const typename T::Handle & h) { return !h.expired(); }
+	static bool removeAt(T & o, int pos) { bool found; typename T::Handle h = handleAt(o, pos, found); return removeHandle(o, h); }
 	static void trigger(T & o, int v) { o.dispatch(5, v); }
 	static void preset(T &, unsigned) {}
 	static bool hasAny(T & o) { return o.hasAnyListener(5); }
@@ -106,12 +118,15 @@ struct AHeterList {
 	static const bool isQueue = false, hasFilter = false;
 	static void add(T & o, int id) { if(id % 2) o.append(FnStr(id)); else o.append(FnInt(id)); }
 	// position counts int-prototype callbacks first, then string-prototype ones (that is the trigger order below)
-	static bool removeAt(T & o, int pos) {
-		typename T::Handle h{-1, {}}; bool found = false; int i = 0;
+	static typename T::Handle handleAt(T & o, int pos, bool & found) {
+		typename T::Handle h{-1, {}}; found = false; int i = 0;
 		o.template forEach<void(int)>([&](const typename T::Handle & hh, const std::function<void(int)> &) { if(i++ == pos) { h = hh; found = true; } });
 		o.template forEach<void(const std::string &)>([&](const typename T::Handle & hh, const std::function<void(const std::string &)> &) { if(i++ == pos) { h = hh; found = true; } });
-		return found ? o.remove(h) : false;
+		return h;
 	}
+	static bool removeHandle(T & o, const typename T::Handle & h) { return o.remove(h); }
+	static bool handleAlive(const typename T::Handle & h) { return !h.homoHandle.expired(); }
+	static bool removeAt(T & o, int pos) { bool found; typename T::Handle h = handleAt(o, pos, found); return found ? removeHandle(o, h) : false; }
 	static void trigger(T & o, int v) { o(v); o(std::string((size_t)v, 'x')); }
 	static void preset(T &, unsigned) {}
 	static bool hasAny(T & o) { return !o.empty(); }
@@ -122,12 +137,15 @@ struct AHeterDispatcher {
 	static const char * name() { return "HeterEventDispatcher"; }
 	static const bool isQueue = false, hasFilter = false;
 	static void add(T & o, int id) { if(id % 2) o.appendListener(5, FnStr(id)); else o.appendListener(5, FnInt(id)); }
-	static bool removeAt(T & o, int pos) {
-		typename T::Handle h{-1, {}}; bool found = false; int i = 0;
+	static typename T::Handle handleAt(T & o, int pos, bool & found) {
+		typename T::Handle h{-1, {}}; found = false; int i = 0;
 		o.template forEach<void(int)>(5, [&](const typename T::Handle & hh, const std::function<void(int)> &) { if(i++ == pos) { h = hh; found = true; } });
 		o.template forEach<void(const std::string &)>(5, [&](const typename T::Handle & hh, const std::function<void(const std::string &)> &) { if(i++ == pos) { h = hh; found = true; } });
-		return found ? o.removeListener(5, h) : false;
+		return h;
 	}
+	static bool removeHandle(T & o, const typename T::Handle & h) { return o.removeListener(5, h); }
+	static bool handleAlive(const typename T::Handle & h) { return !h.homoHandle.expired(); }
+	static bool removeAt(T & o, int pos) { bool found; typename T::Handle h = handleAt(o, pos, found); return found ? removeHandle(o, h) : false; }
 	static void trigger(T & o, int v) { o.dispatch(5, v); o.dispatch(5, std::string((size_t)v, 'x')); }
 	static void preset(T &, unsigned) {}
 	static bool hasAny(T & o) { return o.hasAnyListener(5); }
@@ -138,12 +156,15 @@ struct AHeterQueue {
 	static const char * name() { return "HeterEventQueue"; }
 	static const bool isQueue = true, hasFilter = false;
 	static void add(T & o, int id) { if(id % 2) o.appendListener(5, FnStr(id)); else o.appendListener(5, FnInt(id)); }
-	static bool removeAt(T & o, int pos) {
-		typename T::Handle h{-1, {}}; bool found = false; int i = 0;
+	static typename T::Handle handleAt(T & o, int pos, bool & found) {
+		typename T::Handle h{-1, {}}; found = false; int i = 0;
 		o.template forEach<void(int)>(5, [&](const typename T::Handle & hh, const std::function<void(int)> &) { if(i++ == pos) { h = hh; found = true; } });
 		o.template forEach<void(const std::string &)>(5, [&](const typename T::Handle & hh, const std::function<void(const std::string &)> &) { if(i++ == pos) { h = hh; found = true; } });
-		return found ? o.removeListener(5, h) : false;
+		return h;
 	}
+	static bool removeHandle(T & o, const typename T::Handle & h) { return o.removeListener(5, h); }
+	static bool handleAlive(const typename T::Handle & h) { return !h.homoHandle.expired(); }
+	static bool removeAt(T & o, int pos) { bool found; typename T::Handle h = handleAt(o, pos, found); return found ? removeHandle(o, h) : false; }
 	static void trigger(T & o, int v) { o.dispatch(5, v); o.dispatch(5, std::string((size_t)v, 'x')); }
 	static void preset(T &, unsigned) {}
 	static bool hasAny(T & o) { return o.hasAnyListener(5); }
@@ -269,9 +290,34 @@ struct Harness : HarnessBase {
 	void opDestroy(int i) { ctx.log(fmt("destroy O%d", i)); obj[i]->~T(); obj[i] = nullptr; model[i] = M{{}, {}, 0}; }
 	void opCopyCtor(int i, int j) { ctx.log(fmt("O%d = copy-construct(O%d)", i, j)); obj[i] = new (place(i)) T(*obj[j]); model[i] = M{model[j].listeners, model[j].filters, 0}; }
 	void opMoveCtor(int i, int j) { ctx.log(fmt("O%d = move-construct(O%d)", i, j)); obj[i] = new (place(i)) T(std::move(*obj[j])); model[i] = M{model[j].listeners, model[j].filters, 0}; resync(j); }
-	void opCopyAssign(int i, int j) { ctx.log(fmt("O%d = O%d (copy-assign)", i, j)); *obj[i] = *obj[j]; if(i != j) { model[i].listeners = model[j].listeners; model[i].filters = model[j].filters; } }
+	// Self copy-assignment and self swap "change nothing": in particular the handles obtained BEFORE the call keep identifying
+	// their listeners (a deep clone that replaced every node would leave the same listeners in the same order but orphan them)
+	std::vector<typename T::Handle> handlesOf(int i) { std::vector<typename T::Handle> v; for(int p = 0; ; ++p) { bool found; typename T::Handle h = A::handleAt(*obj[i], p, found); if(!found) break; v.push_back(h); } return v; }
+	void checkHandlesKept(int i, const std::vector<typename T::Handle> & before, const char * what) {
+		for(size_t p = 0; p < before.size(); ++p) if(!A::handleAlive(before[p])) { report("self-operation-invalidated-handle", fmt("%s: the handle of the listener at position %zu of O%d, obtained before the call, has expired", what, p, i)); return; }
+		std::vector<typename T::Handle> now = handlesOf(i);
+		if(now.size() != before.size()) report("self-operation-invalidated-handle", fmt("%s: O%d enumerates %zu listeners, %zu before the call", what, i, now.size(), before.size()));
+	}
+	void opCopyAssign(int i, int j) {
+		ctx.log(fmt("O%d = O%d (copy-assign)", i, j));
+		std::vector<typename T::Handle> before; if(i == j) before = handlesOf(i);
+		*obj[i] = *obj[j];
+		if(i != j) { model[i].listeners = model[j].listeners; model[i].filters = model[j].filters; }
+		else checkHandlesKept(i, before, "self copy-assignment");
+	}
+	// self copy-assignment followed by a removal through a handle obtained before it
+	void opSelfAssignThenRemove(int i) {
+		std::vector<int> ord = expectedOrder(model[i]);
+		bool found; typename T::Handle h = A::handleAt(*obj[i], 0, found);
+		ctx.log(fmt("h = handle of O%d's first listener; O%d = O%d; remove(h)", i, i, i));
+		T & self = *obj[i];
+		*obj[i] = self;
+		bool got = found ? A::removeHandle(*obj[i], h) : false;
+		if(found && !ord.empty()) model[i].listeners.erase(std::find(model[i].listeners.begin(), model[i].listeners.end(), ord[0]));
+		if(got != found) report("remove-result", fmt("after O%d = O%d, removing the first listener through the handle obtained before returned %d", i, i, (int)got));
+	}
 	void opMoveAssign(int i, int j) { ctx.log(fmt("O%d = move(O%d)", i, j)); *obj[i] = std::move(*obj[j]); model[i].listeners = model[j].listeners; model[i].filters = model[j].filters; resync(j); }
-	void opSwapMember(int i, int j) { ctx.log(fmt("O%d.swap(O%d)", i, j)); obj[i]->swap(*obj[j]); if(i != j) { std::swap(model[i].listeners, model[j].listeners); adoptFilters(i); adoptFilters(j); } }
+	void opSwapMember(int i, int j) { ctx.log(fmt("O%d.swap(O%d)", i, j)); std::vector<typename T::Handle> before; if(i == j) before = handlesOf(i); obj[i]->swap(*obj[j]); if(i == j) checkHandlesKept(i, before, "self swap"); if(i != j) { std::swap(model[i].listeners, model[j].listeners); adoptFilters(i); adoptFilters(j); } }
 	void opSwapAdl(int i, int j) { ctx.log(fmt("swap(O%d,O%d)", i, j)); using std::swap; swap(*obj[i], *obj[j]); if(i != j) { std::swap(model[i].listeners, model[j].listeners); adoptFilters(i); adoptFilters(j); } }
 	// The property promises that swap exchanges the listeners; whether filters travel differs between the member swap
 	// (listener map only) and the move-based std::swap, so the model adopts what each object shows afterwards.
@@ -340,7 +386,7 @@ struct Harness : HarnessBase {
 	template <typename AA> void opFilter(int, std::false_type) {}
 
 	// ---- alphabet
-	int menu() const { int n = cfg.nSlots; return n + n + n * n + n * n + n * n + n * n + n * n + n * n + n + 2 * n + n + n + (A::isQueue ? 3 * n : 0) + (A::hasFilter ? n : 0); }
+	int menu() const { int n = cfg.nSlots; return n + n + n * n + n * n + n * n + n * n + n * n + n * n + n + 2 * n + n + n + 1 + (A::isQueue ? 3 * n : 0) + (A::hasFilter ? n : 0); }
 	void topOp(Bfs & b, int op) {
 		int n = cfg.nSlots;
 		if(op < n) { if(obj[op]) b.skip(); opDefault(op); return; } op -= n;
@@ -364,6 +410,7 @@ struct Harness : HarnessBase {
 		if(op < 2 * n) { int i = op / 2; if(!obj[i]) b.skip(); opRemoveAt(i, op % 2); return; } op -= 2 * n;
 		if(op < n) { if(!obj[op]) b.skip(); opChurn(op); return; } op -= n;
 		if(op < n) { if(!obj[op] || !cfg.nested || Heter || model[op].listeners.empty()) b.skip(); opTriggerNested(op); return; } op -= n;
+		if(op < 1) { if(!obj[0] || model[0].listeners.empty()) b.skip(); opSelfAssignThenRemove(0); return; } op -= 1;
 		if(A::isQueue) {
 			if(op < n) { if(!obj[op] || model[op].pending >= 2) b.skip(); opEnqueue(op, std::integral_constant<bool, A::isQueue>()); return; } op -= n;
 			if(op < n) { if(!obj[op]) b.skip(); opProcess(op, std::integral_constant<bool, A::isQueue>()); return; } op -= n;
